@@ -13,6 +13,7 @@ pub struct InputSpec {
     pub seed: u64,
 }
 
+#[derive(Clone)]
 pub struct Input {
     pub a: MultiPolygon<f64>,
     pub b: MultiPolygon<f64>,
@@ -412,4 +413,51 @@ pub fn gen_spec(rng: &mut Rng, family: &str, large: u8) -> InputSpec {
         _ => 4,
     };
     InputSpec { family: family.to_string(), size, seed: rng.next_u64() }
+}
+
+
+/// The same geometries with every ring / line string / point list reversed: identical structure
+/// (lengths, bounding boxes), different coordinate order.
+pub fn reversed(i: &Input) -> Input {
+    let rev_ls = |l: &LineString<f64>| LineString::new(l.0.iter().rev().copied().collect());
+    let rev_mp = |m: &MultiPolygon<f64>| MultiPolygon::new(m.0.iter().map(|p| Polygon::new(rev_ls(p.exterior()), p.interiors().iter().map(rev_ls).collect())).collect());
+    Input {
+        a: rev_mp(&i.a),
+        b: rev_mp(&i.b),
+        mls: MultiLineString::new(i.mls.0.iter().map(rev_ls).collect()),
+        pts: MultiPoint::new(i.pts.0.iter().rev().copied().collect()),
+        lines: i.lines.iter().rev().map(|l| Line::new(l.end, l.start)).collect(),
+        a_valid: i.a_valid,
+        segments: i.segments,
+    }
+}
+
+/// Overwrites the coordinates of `dst` with those of `src` IN PLACE (same structure required):
+/// every buffer keeps its address, only the contents change.  Returns false if the structures differ.
+pub fn overwrite_in_place(dst: &mut Input, src: &Input) -> bool {
+    fn same_mp(a: &MultiPolygon<f64>, b: &MultiPolygon<f64>) -> bool {
+        a.0.len() == b.0.len()
+            && a.0.iter().zip(&b.0).all(|(p, q)| p.exterior().0.len() == q.exterior().0.len() && p.interiors().len() == q.interiors().len() && p.interiors().iter().zip(q.interiors()).all(|(r, s)| r.0.len() == s.0.len()))
+    }
+    if !same_mp(&dst.a, &src.a) || !same_mp(&dst.b, &src.b) || dst.mls.0.len() != src.mls.0.len() || dst.mls.0.iter().zip(&src.mls.0).any(|(l, m)| l.0.len() != m.0.len()) || dst.pts.0.len() != src.pts.0.len() || dst.lines.len() != src.lines.len() {
+        return false;
+    }
+    fn copy_mp(d: &mut MultiPolygon<f64>, s: &MultiPolygon<f64>) {
+        for (p, q) in d.0.iter_mut().zip(&s.0) {
+            p.exterior_mut(|e| e.0.copy_from_slice(&q.exterior().0));
+            p.interiors_mut(|is| {
+                for (r, t) in is.iter_mut().zip(q.interiors()) {
+                    r.0.copy_from_slice(&t.0)
+                }
+            });
+        }
+    }
+    copy_mp(&mut dst.a, &src.a);
+    copy_mp(&mut dst.b, &src.b);
+    for (l, m) in dst.mls.0.iter_mut().zip(&src.mls.0) {
+        l.0.copy_from_slice(&m.0);
+    }
+    dst.pts.0.copy_from_slice(&src.pts.0);
+    dst.lines.copy_from_slice(&src.lines);
+    true
 }
